@@ -19,6 +19,10 @@ type genOpts struct {
 	forceRelic string
 	maxChars   int
 	maxCycles  int
+	// showcase: the forced character starts with full energy, always asks for its ultimate and its skill,
+	// and faces 2-4 enemies of which one is frail (dies from any hit) and the others outlive the battle:
+	// multi-hit abilities then lose a target in the middle of the ability
+	showcase bool
 }
 
 var promoCaps = []int{20, 30, 40, 50, 60, 70, 80}
@@ -237,6 +241,16 @@ func genChar(r *term.Rng, contentCat *catalogs, k string, o genOpts) term.T {
 	}
 	energy := term.Pick(r, []int{0, 0, int(cfg.MaxEnergy / 2), int(cfg.MaxEnergy), int(cfg.MaxEnergy) + 50})
 	hp := term.Pick(r, []int{100, 100, 100, 50, 1})
+	if o.showcase && k == o.forceChar {
+		ev := term.Pick(r, evaluators)
+		frag := fmt.Sprintf("set_default_action(%s, attack(%s)); register_skill_cb(%s, fn () { return skill(%s); }); "+
+			"register_ult_cb(%s, fn () { return ult(%s); });", k, ev, k, ev, k, ev)
+		return term.C("Ch", term.S(k), term.I(int64(lvl)), term.I(int64(maxLvl)), term.I(int64(r.Intn(7))),
+			term.L(traces...),
+			term.I(int64(r.Range(1, 9))), term.I(int64(r.Range(1, 15))), term.I(int64(r.Range(1, 15))), term.I(int64(r.Range(1, 15))),
+			term.C("LC", term.S(cone), term.I(int64(clvl)), term.I(int64(cmax)), term.I(int64(r.Range(1, 5)))),
+			term.L(rels...), term.I(int64(cfg.MaxEnergy)), term.I(100), term.S(frag))
+	}
 	return term.C("Ch", term.S(k), term.I(int64(lvl)), term.I(int64(maxLvl)), term.I(int64(r.Intn(7))),
 		term.L(traces...),
 		term.I(int64(r.Range(1, 9))), term.I(int64(r.Range(1, 15))), term.I(int64(r.Range(1, 15))), term.I(int64(r.Range(1, 15))),
@@ -308,6 +322,21 @@ func genSpec(r *term.Rng, o genOpts) term.T {
 	enemies := []term.T{}
 	for i, ne := 0, r.Range(1, 5); i < ne; i++ {
 		enemies = append(enemies, genEnemy(r, contentCat))
+	}
+	if o.showcase {
+		enemies = enemies[:0]
+		ne := r.Range(2, 4)
+		frail := r.Intn(ne)
+		for i := 0; i < ne; i++ {
+			_, e := term.Ctor(genEnemy(r, contentCat))
+			e = append([]term.T{}, e...)
+			if i == frail {
+				e[1], e[2] = term.I(1), term.I(int64(term.Pick(r, []int{1, 5}))) // level 1, HP 1 or 5
+			} else {
+				e[2] = term.I(100000)
+			}
+			enemies = append(enemies, term.C("En", e...))
+		}
 	}
 	cycles := r.Range(1, o.maxCycles)
 	if r.Chance(1, 12) {
